@@ -496,17 +496,6 @@ V('c17-copy-carries-recent', 'C17', 'R17.8', DICTMBX,
   '''                   thread_id=msg.thread_id, recent=recent,''',
   '''                   thread_id=msg.thread_id, recent=msg.recent,''')
 # twins
-V('c17-twin-local-negation', 'C17', 'R17.2', SESS,
-  '''        uids: list[int] = []
-        try:
-            for append_msg in messages:
-                msg = await mbx.append(append_msg, recent=not dest_selected)''',
-  '''        uids: list[int] = []
-        store_recent = not dest_selected
-        try:
-            for append_msg in messages:
-                msg = await mbx.append(append_msg, recent=store_recent)''',
-  expect='silent')
 V('c17-twin-claim-list', 'C17', 'R17.7', MAILDIRMBX,
   'keys = frozenset(self._maildir.claim_new())',
   'keys = set(self._maildir.claim_new())', expect='silent')
